@@ -79,21 +79,23 @@ theorem artifact_complete (fs fs' : FS) (jobURI : URI) (snap : JobSnap)
 
 /-- **savepoint_roundtrip** (self-containedness): let the artifact of job snapshot `snap` be created successfully
 from storage `fs` whose job snapshot file holds `snap`. Take ANY storage `w` that agrees with the result on the
-savepoint directories only — the working storage may be wiped, stale or garbage. Then starting from the savepoint
+directory of THIS savepoint only — the working storage may be wiped, stale or garbage, other savepoints may have
+been created or changed. Then starting from the savepoint
 URI succeeds, loads exactly `snap` (operator checkpoints and source state), and for every operator checkpoint
 `dkv.Open` reads from the restored storage exactly the image (document entry, WAL contents, table contents) that
 it reads from the original working storage, and that image exists. -/
 theorem savepoint_roundtrip (fs fs1 w : FS) (jobURI : URI) (snap : JobSnap)
     (hc : createArtifact .byId fs jobURI snap = (fs1, true))
     (hj : read fs (.work jobURI) = some (.job snap))
-    (hw : ∀ p, p.isWork = false → read w p = read fs1 p) :
+    (hw : ∀ p, p.inSp snap.id = true → read w p = read fs1 p) :
     ∃ w', loadFromSavepoint .byId w snap.id = (w', some snap) ∧
       ∀ o ∈ snap.ops, openDB w' o = openDB fs o ∧ (openDB fs o).isSome := by
   obtain ⟨hops, ⟨cj, hcj1, hcj2⟩⟩ := artifact_complete fs fs1 jobURI snap hc
   rw [hj] at hcj1
   have hcj : cj = .job snap := by injection hcj1 with h; exact h.symm
   subst hcj
-  have hjw : read w (.spJob snap.id) = some (.job snap) := by rw [hw _ rfl]; exact hcj2
+  have hin : ∀ u, (artPath snap.id u).inSp snap.id = true := by intro u; simp [artPath, Path.inSp]
+  have hjw : read w (.spJob snap.id) = some (.job snap) := by rw [hw _ (by simp [Path.inSp])]; exact hcj2
   -- what the artifact holds, seen from `w`
   have hsp : ∀ o ∈ snap.ops, ∃ files, neededBy fs o = some files ∧
       ∀ u ∈ files, ∃ c, read fs (.work u) = some c ∧ read w (artPath snap.id u) = some c := by
@@ -101,7 +103,7 @@ theorem savepoint_roundtrip (fs fs1 w : FS) (jobURI : URI) (snap : JobSnap)
     obtain ⟨files, hf, hall⟩ := hops o ho
     refine ⟨files, hf, fun u hu => ?_⟩
     obtain ⟨c, h1, h2⟩ := hall u hu
-    exact ⟨c, h1, by rw [hw _ rfl]; exact h2⟩
+    exact ⟨c, h1, by rw [hw _ (hin u)]; exact h2⟩
   -- the listings computed from the artifact's documents are the original ones
   have hlist : ∀ o ∈ snap.ops, ∃ files, opFiles .byId w (artPath snap.id o.uri) o = some files ∧
       neededBy fs o = some files ∧
@@ -150,7 +152,8 @@ theorem savepoint_roundtrip_wipe (fs fs1 : FS) (jobURI : URI) (snap : JobSnap)
     (hj : read fs (.work jobURI) = some (.job snap)) :
     ∃ w', loadFromSavepoint .byId (wipe fs1) snap.id = (w', some snap) ∧
       ∀ o ∈ snap.ops, openDB w' o = openDB fs o ∧ (openDB fs o).isSome :=
-  savepoint_roundtrip fs fs1 (wipe fs1) jobURI snap hc hj (fun p hp => read_wipe_sp fs1 p hp)
+  savepoint_roundtrip fs fs1 (wipe fs1) jobURI snap hc hj
+    (fun p hp => read_wipe_sp fs1 p (by cases p <;> simp_all [Path.inSp, Path.isWork]))
 
 /-- after the wipe nothing of the working storage is left (so the round trip above is not vacuous about `wipe`) -/
 theorem wipe_removes_working (fs : FS) (o : OpCkpt) : openDB (wipe fs) o = none := by
@@ -190,6 +193,68 @@ theorem publish_savepoint_roundtrip (fs fs1 : FS) (jobURI : URI) (snap : JobSnap
         (openDB (write (.work jobURI) (.job snap) fs) o).isSome := by
   simp only [publish, if_true] at hp
   exact savepoint_roundtrip_wipe _ fs1 jobURI snap hp (read_write_eq _ _ _)
+
+/-- one step of a job's life leaves every file under `savepoints/` as it is, except inside the directory of a
+savepoint that this very step (re)creates -/
+theorem jobStep_preserves_savepoints (L : Lister) (fs : FS) (a : JobAct) (p : Path) (hp : p.isWork = false)
+    (hid : ∀ id, a.savepointId = some id → p.inSp id = false) :
+    read (jobStep L fs a) p = read fs p := by
+  cases a with
+  | work ops => exact applyWork_frame p hp ops fs
+  | startFrom sid => exact load_frame L p hp fs sid
+  | wipe => exact read_wipe_sp fs p hp
+  | publish pub obsolete =>
+    simp only [jobStep]
+    rw [cleanup_frame p hp]
+    have hw : read (write (.work (jobURI pub.1.id)) (.job pub.1) fs) p = read fs p :=
+      read_write_ne _ _ (by intro hh; subst hh; simp [Path.isWork] at hp)
+    unfold publish
+    by_cases h2 : pub.2 = true
+    · simp only [h2, if_true]
+      rw [savepoint_nonintrusive L _ _ _ p (hid pub.1.id (by simp [JobAct.savepointId, h2]))]
+      exact hw
+    · simp only [h2]; exact hw
+
+/-- **savepoint_survives_job_life**: whatever the job does afterwards — operators and store writing and deleting
+working files, further publications with removal of the obsolete job snapshots, wiping the working storage,
+starting again from any savepoint (restore), in any order and any number of times — no file under `savepoints/`
+is removed or changed, except inside the directory of a savepoint id for which an artifact is created again. -/
+theorem savepoint_survives_job_life (L : Lister) (acts : List JobAct) (fs : FS) (p : Path) (hp : p.isWork = false)
+    (hid : ∀ a ∈ acts, ∀ id, a.savepointId = some id → p.inSp id = false) :
+    read (jobRun L fs acts) p = read fs p := by
+  induction acts generalizing fs with
+  | nil => rfl
+  | cons a r ih =>
+    simp only [jobRun]
+    rw [ih _ (fun b hb => hid b (List.mem_cons_of_mem _ hb))]
+    exact jobStep_preserves_savepoints L fs a p hp (hid a (List.mem_cons_self ..))
+
+/-- **savepoint_stays_restorable**: a successfully created savepoint keeps restoring the snapshot and the operator
+images it was created from after ANY later life of the job (as above; the job may in particular be rolled back
+to an earlier savepoint and publish a checkpoint with the same id again, or be restarted from this savepoint and
+clean up the snapshot it loaded), as long as no artifact with the same id is created again. -/
+theorem savepoint_stays_restorable (fs fs1 : FS) (jobURI' : URI) (snap : JobSnap) (acts : List JobAct)
+    (hc : createArtifact .byId fs jobURI' snap = (fs1, true))
+    (hj : read fs (.work jobURI') = some (.job snap))
+    (hid : ∀ a ∈ acts, a.savepointId ≠ some snap.id) :
+    ∃ w', loadFromSavepoint .byId (jobRun .byId fs1 acts) snap.id = (w', some snap) ∧
+      ∀ o ∈ snap.ops, openDB w' o = openDB fs o ∧ (openDB fs o).isSome := by
+  apply savepoint_roundtrip fs fs1 _ jobURI' snap hc hj
+  intro p hin
+  have hp : p.isWork = false := by cases p <;> simp_all [Path.inSp, Path.isWork]
+  apply savepoint_survives_job_life .byId acts fs1 p hp
+  intro a ha id hid'
+  cases hpi : p.inSp id with
+  | false => rfl
+  | true =>
+    exfalso
+    have : id = snap.id := by
+      cases p with
+      | work u => simp [Path.isWork] at hp
+      | sp i d b => simp only [Path.inSp, beq_iff_eq] at hin hpi; omega
+      | spJob i => simp only [Path.inSp, beq_iff_eq] at hin hpi; omega
+    subst this
+    exact hid a ha hid'
 
 /-- **artPath_injective**: the place of a file inside a savepoint directory is computed from the file's own
 directory AND base name, so two different files of the same savepoint never share a place — in particular not two
